@@ -76,6 +76,10 @@ def make_texts(rng, tier):
     # string tokens: doubled quotes and backslash pairs inside, names that are nothing but quotes
     fixed += ['rule "a""b" begin end', 'rule "x" begin y = "q\\"r" end', 'rule "\\"" begin end', 'rule """" begin end', 'rule "a" "d""e" salience 1 begin end', 'rule "a\\" begin end',
               'rule "a" begin m["""k"] = 1 end', 'rule "a" begin m[""""] = 1 end', 'rule "a""" begin end rule "a" begin end']
+    # white space of Unicode that is NOT white space of the rule language ([ \t\n\r] only), at the very start or end of a text
+    USPACE = ["\x0b", "\x0c", "\x85", "\xa0", "\u2028", "\u3000", "\u2003", "\x1f"]
+    for sp in USPACE:
+        fixed += [BASE + sp, sp + BASE, BASE + "\n" + sp + "\n", 'rule "u" begin end' + sp]
     for t in fixed:
         texts.append(("fixed", t))
     # truncations: every token-boundary PREFIX and SUFFIX of one valid two-rule text (a text cut right after `rule`, after the
